@@ -265,7 +265,12 @@ func buildDMG(env *Env, v Variant) ([]*Artifact, error) {
 	if ci.Len < d.sigLen {
 		m.Set(d.sigOff+ci.Len, d.sigLen-ci.Len, Unprotected, "dmg.signature-padding")
 	}
-	m.Set(d.koly, 512, Protected, "dmg.koly-trailer")
+	m.Set(d.koly, 512, Protected, "dmg.koly-trailer.fields")
+	// reserved areas of the UDIF resource file header (zero in practice); the
+	// rep-specific slot is the hash of the raw 512 bytes, so they are covered too
+	m.Set(d.koly+232, 64, Protected, "dmg.koly-trailer.reserved")
+	m.Set(d.koly+312, 40, Protected, "dmg.koly-trailer.reserved")
+	m.Set(d.koly+500, 12, Protected, "dmg.koly-trailer.reserved")
 	m.Set(d.koly+304, 8, Unprotected, "dmg.koly-trailer.signature-length")
 	a.Map = m
 	in, err := readFile(relicxPackages("dummy.dmg"))
